@@ -535,8 +535,16 @@ impl<'t, 'd> Gen<'t, 'd> {
                     Expr::bin(op, l, r)
                 }
                 1 => {
-                    let lt = if self.cfg.int_divf && self.t.chance(1, 2) { Ty::Int } else { Ty::Float };
-                    Expr::bin(BinOp::DivF, self.expr(frame, lt, d), self.nonzero_int_lit())
+                    if self.cfg.int_divf {
+                        let lt = if self.t.chance(1, 2) { Ty::Int } else { Ty::Float };
+                        Expr::bin(BinOp::DivF, self.expr(frame, lt, d), self.nonzero_int_lit())
+                    } else {
+                        // generic emits the engine's `/`: keep the dividend a REAL column or literal
+                        // (a float-typed expression may still be an integer at run time, e.g. the
+                        // COALESCE(.., 0) of an empty sum)
+                        let l = self.safe_leaf(frame, Ty::Float);
+                        Expr::bin(BinOp::DivF, l, self.nonzero_int_lit())
+                    }
                 }
                 2 => Expr::bin(
                     BinOp::DivI,
@@ -700,8 +708,12 @@ impl<'t, 'd> Gen<'t, 'd> {
                     Expr::Lit(_) => true,
                     _ => false,
                 };
-                if !simple && !self.haz("mul_right") {
-                    a = self.safe_leaf(frame, Ty::Int);
+                if !simple {
+                    if self.haz("mul_right") {
+                        self.touch("mul_right");
+                    } else {
+                        a = self.safe_leaf(frame, Ty::Int);
+                    }
                 }
                 args.push(a);
             } else if self.t.chance(1, 2) {
